@@ -223,6 +223,8 @@ Theorem C12_lwt_first_target : forall cl cfg st values cho shufp rq x rest,
      pool_has_shard (c_pool cl (fst x)) (shard_u16 (snd x)) = true -> conn_shard c = shard_u16 (snd x)).
 Proof. exact lwt_first_target. Qed.
 
+(* (a definitional unfolding, stated for the record: the LWT candidates of a tablet table are the
+   tablet's own list filtered, in its order) *)
 Theorem C12_lwt_cands_tablet : forall cl (rq : request) k t c, rq_lwt rq = true ->
   g_filtered (c_rackf cl) (c_enabled cl) (c_connected cl) (tablet_source (c_tablets cl) k t) c (rq_lwt rq) =
   filter (fun x => c_alive cl (fst x) && crit_ok (c_rackf cl) c (fst x))
@@ -275,9 +277,23 @@ Theorem C12_excess_trimmed : forall size evs,
 Proof. exact pool_run_trimmed. Qed.
 
 Theorem C12_refill_ok_sound : forall size evs final, refill_ok size evs final = true ->
-  map conn_shard (concat (rf_conns (pool_run size evs))) = final /\
-  (rf_is_full size (pool_run size evs) = true -> rf_excess (pool_run size evs) = []).
+  map conn_shard (concat (rf_conns (pool_run size evs))) = final.
 Proof. exact refill_ok_sound. Qed.
+
+(* no usable owner in the specification's sense (owners: spec_replicas / the tablet's list) => the
+   model has no replica candidate, so C12_no_replica_nodes applies: e.g. a tablet naming only
+   unknown hosts (C12_tablets_unknown_hosts: its owners are the known hosts, i.e. none) *)
+Theorem C12_no_usable_owner_no_cands : forall cl cfg st values k t s rq,
+  sorted_weak (c_ring cl) -> keys_ok cl ->
+  ((exists tt, Tablets.find_table (c_tablets cl) k = Some tt) -> tablets_coherent cl) ->
+  st_table st = Some k ->
+  PartKey.ps_calculate_token true (st_part st) (st_ncols st) (st_wire st) values = Ok (Some t) ->
+  pol_token_aware (ex_pol cfg) = true ->
+  ks_lookup (c_keyspaces cl) (fst k) = Some s ->
+  routing_request st cfg values = Ok rq ->
+  (forall r, In r (owners cl k t s) -> usable cl (ex_pol cfg) rq (fst r) = false) ->
+  replica_cands cl cfg rq (route_source cl (ex_pol cfg) rq (st_table st)) = [].
+Proof. exact no_usable_owner_no_cands. Qed.
 
 (* the well-formedness test the driver runs on its input is sound *)
 Theorem C12_pool_wfb_sound : forall p, pool_wfb p = true -> pool_wf p.
@@ -447,6 +463,24 @@ Example C12_ex_refill :
   refill_ok (PerShard 1) [EvReady (c 1%N 0%N) false; EvBroken (c 1%N 0%N)] [] = true.
 Proof. repeat split; vm_compute; reflexivity. Qed.
 
+(* a tablet naming only a host the driver does not know: no owner, no replica candidate; the request
+   goes to a live node of the preferred datacenter, not to the ring's replicas (1 and 3) *)
+Definition ex_tablets2 : Tablets.info :=
+  match Tablets.run (Tablets.cluster_ops [] [Tablets.CRefresh ex_schema ex_known;
+          Tablets.CLearn (0%N, 1%N) (-9223372036854775808) 9223372036854775807 [(9%N, 1)]]) with
+  | Some s => s | None => Tablets.info_empty end.
+Definition ex_cl2 : cluster :=
+  mkCluster ex_dcf ex_rackf ex_ring [(0%N, NTS [(1%N, 1%nat); (2%N, 1%nat)])] [] (fun _ => true) ex_pool ex_tablets2.
+Example C12_ex_no_replica :
+  let cfg := mkCfg {| pol_pref := Some (PDc 2); pol_token_aware := true; pol_failover := false |} PAny false in
+  let rq := {| rq_token := Some 1634052884888577606; rq_ks := Some 0%N; rq_lwt := false; rq_pref := PAny |} in
+  owners ex_cl2 (0%N, 1%N) 1634052884888577606 (NTS [(1%N, 1%nat); (2%N, 1%nat)]) = [] /\
+  replica_cands ex_cl2 cfg rq (route_source ex_cl2 (ex_pol cfg) rq (Some (0%N, 1%N))) = [] /\
+  node_cands ex_cl2 cfg rq = [3%N] /\
+  route_obs ex_cl2 ex_cho ex_shuf cfg (ex_stmt 1) ex_values = Ok (Some (3%N, 0%N)) /\
+  route_ok ex_cl2 cfg (ex_stmt 1) ex_values (Some (1%N, 3%N)) = false.
+Proof. repeat split; vm_compute; reflexivity. Qed.
+
 Print Assumptions C12_token.
 Print Assumptions C12_first_target.
 Print Assumptions C12_shard_u16.
@@ -467,6 +501,7 @@ Print Assumptions C12_tablets_uncovered.
 Print Assumptions C12_tablets_unknown_hosts.
 Print Assumptions C12_excess_trimmed.
 Print Assumptions C12_refill_ok_sound.
+Print Assumptions C12_no_usable_owner_no_cands.
 Print Assumptions C12_conn_accept_sound.
 Print Assumptions C12_conn_accept_complete.
 Print Assumptions C12_pool_wfb_sound.
